@@ -176,4 +176,639 @@ Section Proofs.
         * exists p0. split; assumption.
   Qed.
 
+  (** * Preservation by the operations *)
+
+  Variable v : variant.
+
+  (** "a registered denomination has bank metadata" — what masks the wrong [Name] test of the pinned code *)
+  Definition MetaInv (s : state) : Prop :=
+    forall d id, aget d (st_denom s) = Some id -> aget d (st_meta s) <> None.
+
+  Definition Inv (s : state) : Prop := Consistent s /\ (v_test_base v = true \/ MetaInv s).
+
+  Definition same_registry (s s' : state) : Prop :=
+    st_pairs s' = st_pairs s /\ st_erc20 s' = st_erc20 s /\ st_denom s' = st_denom s /\ st_enable s' = st_enable s.
+
+  Definition meta_grows (s s' : state) : Prop := forall k, aget k (st_meta s) <> None -> aget k (st_meta s') <> None.
+
+  Lemma meta_grows_refl s : meta_grows s s.
+  Proof. intros k H. exact H. Qed.
+
+  Lemma meta_grows_aset s k m : meta_grows s (with_meta s (aset k m (st_meta s))).
+  Proof. intros k' H. cbn. rewrite aget_aset. destruct (bytes_eqb k' k); [discriminate | exact H]. Qed.
+
+  Lemma metadata_validate_units md : metadata_validate md = true -> md_units md <> [].
+  Proof.
+    unfold metadata_validate. intros H E. rewrite E in H. cbn in H.
+    rewrite !andb_false_r in H. discriminate.
+  Qed.
+
+  (** the checks shared by RegisterCoin and AddCoin leave the registry alone, make sure [Base] has metadata
+      and - directly in the repaired code, through [MetaInv] and the pointer comparison in the pinned code -
+      pass only for a base that is not registered *)
+  Lemma coin_checks_ok s md sup s1 :
+    Inv s -> md_units md <> [] -> coin_checks evm_denom v s md sup = Ok s1 ->
+    same_registry s s1 /\ meta_grows s s1 /\ aget (md_base md) (st_meta s1) <> None /\
+    aget (md_base md) (st_denom s) = None /\ (v_reject_hex v = true -> is_hex_address (md_base md) = false).
+  Proof.
+    intros [C F] U H. unfold coin_checks in H.
+    destruct (negb (st_enable s)); [discriminate|].
+    destruct (v_reject_hex v && is_hex_address (md_base md)) eqn:Ehex; [discriminate|].
+    destruct (bytes_eqb (md_base md) evm_denom); [discriminate|].
+    destruct (ahas (if v_test_base v then md_base md else md_name md) (st_denom s)) eqn:Ereg; [discriminate|].
+    destruct (negb sup); [discriminate|].
+    assert (HX : v_reject_hex v = true -> is_hex_address (md_base md) = false).
+    { intro X. rewrite X in Ehex. exact Ehex. }
+    destruct (aget (md_base md) (st_meta s)) as [m|] eqn:Em.
+    - destruct (equal_metadata m md) eqn:Eeq; [|discriminate].
+      exfalso. unfold equal_metadata in Eeq. rewrite !andb_true_iff in Eeq. destruct Eeq as [[_ L1] L2].
+      apply Nat.eqb_eq in L1, L2. rewrite L2 in L1. symmetry in L1. apply length_zero_iff_nil in L1. contradiction.
+    - inversion H; subst s1. split; [repeat split|]. split; [apply meta_grows_aset|]. split.
+      + cbn. rewrite aget_aset, bytes_eqb_refl. discriminate.
+      + split; [|exact HX]. destruct F as [F|F].
+        * rewrite F in Ereg. apply ahas_false in Ereg. exact Ereg.
+        * destruct (aget (md_base md) (st_denom s)) eqn:Ed; [|reflexivity]. exfalso. apply (F _ _ Ed). exact Em.
+  Qed.
+
+  Lemma meta_inv_grows s s' : MetaInv s -> st_denom s' = st_denom s -> meta_grows s s' -> MetaInv s'.
+  Proof. intros M Ed G d id H. rewrite Ed in H. apply G. exact (M _ _ H). Qed.
+
+  (** ** RegisterCoin *)
+  Lemma register_coin_inv s md deploy sup s' :
+    Inv s -> length deploy = 20%nat -> aget deploy (st_erc20 s) = None ->
+    register_coin hid canon evm_denom v s md deploy sup = Ok s' -> Inv s'.
+  Proof.
+    intros I L Fr H. unfold register_coin in H.
+    destruct (coin_checks evm_denom v s md sup) as [s1| |] eqn:Ec; cbn in H; try discriminate.
+    destruct (md_units md) eqn:Eu; [discriminate|].
+    assert (U : md_units md <> []) by (rewrite Eu; discriminate).
+    destruct (coin_checks_ok _ _ _ _ I U Ec) as ((EP & EE & ED & EN) & G & HM & HB & _).
+    unfold store_new_pair in H. cbn in H. inversion H; subst s'; clear H.
+    destruct I as [C F]. unfold Consistent in C. split.
+    - unfold Consistent. cbn [st_pairs st_erc20 st_denom]. rewrite EP, EE, ED.
+      set (np := {| p_text := canon deploy; p_denoms := [md_base md]; p_enabled := true; p_owner := OWNER_MODULE |}).
+      change (canon deploy) with (p_text np). change [md_base md] with (p_denoms np).
+      refine (cons_add _ _ _ (hid (p_text np) (md_base md)) np C _ _ _ _ _).
+      + unfold pair_wf; cbn. split; [discriminate|]. split; [repeat constructor; intros [] | apply canon_hex].
+      + reflexivity.
+      + destruct (aget (hid (canon deploy) (md_base md)) (st_pairs s)) as [q|] eqn:Eq; [|exact Eq]. exfalso.
+        destruct (c_pair _ _ _ C _ _ Eq) as (_ & Iq & Eq' & _).
+        apply pair_id_ok in Iq as (d0 & r & _ & X). apply hid_inj in X as [X _].
+        rewrite <- X, canon_addr in Eq' by exact L. congruence.
+      + cbn. rewrite canon_addr by exact L. exact Fr.
+      + cbn. intros d [<-|[]]. exact HB.
+    - destruct F as [F|F]; [left; exact F | right].
+      intros d id Hd. cbn [st_denom st_meta] in *. rewrite aget_aset in Hd.
+      destruct (bytes_eqb_spec d (md_base md)) as [->|N]; [exact HM|]. rewrite ED in Hd. apply G. exact (F _ _ Hd).
+  Qed.
+
+  Lemma get_pair_some s id p : get_pair s id = Some p -> aget id (st_pairs s) = Some p /\ id <> [].
+  Proof. unfold get_pair. destruct id; [discriminate|]. intro H. split; [exact H | discriminate]. Qed.
+
+  Lemma get_pair_of s id p : aget id (st_pairs s) = Some p -> id <> [] -> get_pair s id = Some p.
+  Proof. unfold get_pair. destruct id; [contradiction|]. intros H _. exact H. Qed.
+
+  (** ** AddCoin *)
+  Lemma add_coin_inv s md contract sup s' :
+    Inv s -> md_units md <> [] ->
+    add_coin hid evm_denom v s md contract sup = Ok s' -> Inv s'.
+  Proof.
+    intros I U H. unfold add_coin in H.
+    destruct (negb (is_hex_address contract)); [discriminate|].
+    destruct (coin_checks evm_denom v s md sup) as [s1| |] eqn:Ec; cbn [obind] in H; try discriminate.
+    destruct (coin_checks_ok _ _ _ _ I U Ec) as ((EP & EE & ED & EN) & G & HM & HB & _).
+    destruct (get_pair s1 (get0 (st_erc20 s1) (addr_of contract))) as [p|] eqn:Ep; [|discriminate].
+    apply get_pair_some in Ep as [Ep _]. rewrite EP in Ep.
+    set (id := get0 (st_erc20 s1) (addr_of contract)) in *.
+    set (p' := {| p_text := p_text p; p_denoms := p_denoms p ++ [md_base md]; p_enabled := p_enabled p; p_owner := p_owner p |}) in *.
+    destruct (Registry.pair_id hid p') as [id'| |] eqn:Ei; cbn [obind] in H; try discriminate.
+    destruct (bytes_eqb_spec id id') as [<-|N]; cbn [negb] in H; [|discriminate].
+    inversion H; subst s'; clear H. destruct I as [C F]. split.
+    - unfold Consistent. cbn [st_pairs st_erc20 st_denom]. rewrite EP, EE, ED.
+      apply (cons_add_denom _ _ _ id p p' (md_base md) C Ep); [reflexivity | reflexivity | exact HB].
+    - destruct F as [F|F]; [left; exact F | right].
+      intros d i Hd. cbn [st_denom st_meta] in *. rewrite aget_aset in Hd.
+      destruct (bytes_eqb_spec d (md_base md)) as [->|N]; [exact HM|]. rewrite ED in Hd. apply G. exact (F _ _ Hd).
+  Qed.
+
+  (** ** RegisterERC20 *)
+  Lemma register_erc20_inv s text q s' :
+    Inv s -> register_erc20 hid canon s text q = Ok s' -> Inv s'.
+  Proof.
+    intros [C F] H. unfold register_erc20 in H.
+    destruct (negb (st_enable s)); [discriminate|].
+    destruct (ahas (addr_of text) (st_erc20 s)) eqn:Ea; [discriminate|]. apply ahas_false in Ea.
+    destruct q as [q|]; [|discriminate].
+    destruct (ahas (create_denom (canon (addr_of text))) (st_meta s)); [discriminate|].
+    destruct (ahas (create_denom (canon (addr_of text))) (st_denom s)) eqn:Ed; [discriminate|]. apply ahas_false in Ed.
+    destruct (negb (metadata_validate (erc20_metadata (canon (addr_of text)) q))); [discriminate|].
+    unfold store_new_pair in H. cbn [Registry.pair_id p_denoms p_text obind erc20_metadata md_name md_base] in H.
+    inversion H; subst s'; clear H.
+    set (a := addr_of text) in *. assert (L : length a = 20%nat) by apply addr_of_length.
+    set (np := {| p_text := canon a; p_denoms := [create_denom (canon a)]; p_enabled := true; p_owner := OWNER_EXTERNAL |}).
+    split.
+    - unfold Consistent. cbn [st_pairs st_erc20 st_denom with_meta].
+      refine (cons_add _ _ _ (hid (p_text np) (create_denom (canon a))) np C _ _ _ _ _).
+      + unfold pair_wf; cbn. split; [discriminate|]. split; [repeat constructor; intros [] | apply canon_hex].
+      + reflexivity.
+      + destruct (aget (hid (canon a) (create_denom (canon a))) (st_pairs s)) as [x|] eqn:Eq; [|exact Eq]. exfalso.
+        destruct (c_pair _ _ _ C _ _ Eq) as (_ & Iq & Eq' & _).
+        apply pair_id_ok in Iq as (d0 & r & _ & X). apply hid_inj in X as [X _].
+        rewrite <- X, canon_addr in Eq' by exact L. congruence.
+      + cbn. rewrite canon_addr by exact L. exact Ea.
+      + cbn. intros d [<-|[]]. exact Ed.
+    - destruct F as [F|F]; [left; exact F | right].
+      intros d i Hd. cbn [st_denom st_meta with_meta] in *. rewrite aget_aset in Hd. rewrite aget_aset.
+      destruct (bytes_eqb d (create_denom (canon a))); [discriminate|]. exact (F _ _ Hd).
+  Qed.
+
+  (** ** ToggleRelay *)
+  Lemma toggle_inv s token s' : Inv s -> toggle hid s token = Ok s' -> Inv s'.
+  Proof.
+    intros [C F] H. unfold toggle in H.
+    destruct (get_token_pair_id s token) as [|b r] eqn:Eid; [discriminate|].
+    destruct (get_pair s (b :: r)) as [p|] eqn:Ep; [|discriminate].
+    apply get_pair_some in Ep as [Ep _].
+    destruct (c_pair _ _ _ C _ _ Ep) as (W & Ip & _).
+    unfold set_pair in H.
+    set (p' := {| p_text := p_text p; p_denoms := p_denoms p; p_enabled := negb (p_enabled p); p_owner := p_owner p |}) in *.
+    assert (Ip' : Registry.pair_id hid p' = Ok (b :: r)) by exact Ip.
+    rewrite Ip' in H. cbn [obind] in H. inversion H; subst s'; clear H. split.
+    - unfold Consistent. cbn [st_pairs st_erc20 st_denom].
+      apply (cons_replace _ _ _ (b :: r) p p' C Ep); reflexivity.
+    - destruct F as [F|F]; [left; exact F | right]. exact F.
+  Qed.
+
+  (** ** DeleteTokenPair (the self-destruct clean-up) *)
+  Lemma delete_pair_inv s id p s' :
+    Inv s -> aget id (st_pairs s) = Some p -> delete_pair hid s p = Ok s' -> Inv s'.
+  Proof.
+    intros [C F] Ep H. destruct (c_pair _ _ _ C _ _ Ep) as (W & Ip & _).
+    unfold delete_pair in H. rewrite Ip in H. cbn [obind] in H. inversion H; subst s'; clear H. split.
+    - unfold Consistent. cbn [st_pairs st_erc20 st_denom]. apply cons_remove; assumption.
+    - destruct F as [F|F]; [left; exact F | right].
+      intros d i Hd. cbn [st_denom st_meta] in *. rewrite aget_del_denoms in Hd.
+      destruct (existsb (bytes_eqb d) (p_denoms p)); [discriminate|]. exact (F _ _ Hd).
+  Qed.
+
+  Lemma Ok_inj {A} (a b : A) : Ok a = Ok b -> a = b.
+  Proof. intro H. inversion H. reflexivity. Qed.
+
+  (** ** UpdateTokenPairERC20 (repaired: every denomination re-indexed, registered new address refused) *)
+  Lemma update_pair_inv s old_text new_text q s' :
+    v_reindex_all v = true -> v_update_guard v = true ->
+    Inv s -> update_pair hid canon v s old_text new_text q = Ok s' -> Inv s'.
+  Proof.
+    intros VR VG [C F] H. unfold update_pair in H. rewrite VR, VG in H.
+    set (old := addr_of old_text) in *. set (new := addr_of new_text) in *.
+    assert (L : length new = 20%nat) by apply addr_of_length.
+    destruct (get0 (st_erc20 s) old) as [|b r] eqn:Eid; [discriminate|].
+    cbn [andb] in H. destruct (ahas new (st_erc20 s)) eqn:En; [discriminate|]. apply ahas_false in En.
+    destruct (get_pair s (b :: r)) as [p|] eqn:Ep; [|discriminate].
+    apply get_pair_some in Ep as [Ep _]. set (id := b :: r) in *.
+    destruct (c_pair _ _ _ C _ _ Ep) as (W & Ip & HE & HD).
+    destruct (p_denoms p) as [|d0 ds] eqn:Eds; [discriminate|].
+    destruct (aget d0 (st_meta s)) as [m|] eqn:Em; [|discriminate].
+    destruct (md_units m) eqn:Eu; [discriminate|]. destruct q as [q|]; [|discriminate].
+    match type of H with (if ?c then _ else _) = _ => destruct c; [discriminate|] end.
+    match type of H with (if ?c then _ else _) = _ => destruct c; [discriminate|] end.
+    unfold delete_pair in H. rewrite Ip in H. cbn [obind] in H.
+    unfold Registry.pair_id in H. cbn [p_denoms p_text] in H. rewrite Eds in H. cbn [obind] in H.
+    apply Ok_inj in H. subst s'.
+    set (p' := {| p_text := canon new; p_denoms := d0 :: ds; p_enabled := p_enabled p; p_owner := p_owner p |}).
+    pose proof (cons_remove _ _ _ _ _ C Ep) as C1.
+    split.
+    - unfold Consistent. cbn [st_pairs st_erc20 st_denom with_meta].
+      assert (X : new = addr_of (p_text p')) by (cbn; rewrite canon_addr by exact L; reflexivity).
+      rewrite Eds in C1.
+      assert (G : Cons (aset (hid (canon new) d0) p' (adel id (st_pairs s)))
+                       (aset (addr_of (p_text p')) (hid (canon new) d0) (adel (addr_of (p_text p)) (st_erc20 s)))
+                       (set_denoms (del_denoms (st_denom s) (d0 :: ds)) (p_denoms p') (hid (canon new) d0)));
+        [|rewrite <- X in G; exact G].
+      refine (cons_add _ _ _ (hid (canon new) d0) p' C1 _ _ _ _ _).
+      + destruct W as (W1 & W2 & W3). unfold pair_wf; cbn. rewrite Eds in W2. split; [discriminate|]. split; [exact W2 | apply canon_hex].
+      + reflexivity.
+      + rewrite aget_adel. destruct (bytes_eqb (hid (canon new) d0) id); [reflexivity|].
+        destruct (aget (hid (canon new) d0) (st_pairs s)) as [x|] eqn:Eq; [|reflexivity]. exfalso.
+        destruct (c_pair _ _ _ C _ _ Eq) as (_ & Iq & Eq' & _).
+        apply pair_id_ok in Iq as (d1 & r1 & _ & Y). apply hid_inj in Y as [Y _].
+        rewrite <- Y, canon_addr in Eq' by exact L. congruence.
+      + rewrite <- X. rewrite aget_adel. destruct (bytes_eqb new (addr_of (p_text p))); [reflexivity | exact En].
+      + intros d Hd. cbn [p_denoms p'] in Hd. rewrite aget_del_denoms. apply existsb_eqb_In in Hd. rewrite Hd. reflexivity.
+    - destruct F as [F|F]; [left; exact F | right].
+      intros d i Hd. cbn [st_denom st_meta with_meta] in *. rewrite aget_set_denoms in Hd. rewrite aget_aset.
+      match goal with |- (if ?c then _ else _) <> None => destruct c; [discriminate|] end.
+      destruct (existsb (bytes_eqb d) (d0 :: ds)) eqn:X.
+      + apply existsb_eqb_In in X. exact (F _ _ (HD _ X)).
+      + rewrite aget_del_denoms in Hd. try rewrite Eds in Hd. rewrite X in Hd. exact (F _ _ Hd).
+  Qed.
+
+  (** ** MintingEnabled and the conversions *)
+
+  Lemma minting_enabled_ok s token denom p :
+    minting_enabled v s token denom = Ok p ->
+    st_enable s = true /\ p_enabled p = true /\
+    exists id, id <> [] /\ get_token_pair_id s token = id /\ aget id (st_pairs s) = Some p /\
+               (if v_mint_direct v then get0 (st_denom s) denom else get_token_pair_id s denom) = id.
+  Proof.
+    unfold minting_enabled. destruct (st_enable s); cbn [negb]; [|discriminate].
+    destruct (bytes_eqb_spec (if v_mint_direct v then get0 (st_denom s) denom else get_token_pair_id s denom)
+                             (get_token_pair_id s token)) as [E|N]; cbn [negb]; [|discriminate].
+    destruct (get_token_pair_id s token) as [|b r] eqn:Et; [discriminate|].
+    destruct (get_pair s (b :: r)) as [q|] eqn:Eq; [|discriminate].
+    destruct (p_enabled q) eqn:En; [|discriminate]. intro H. apply Ok_inj in H. subst q.
+    apply get_pair_some in Eq as [Eq Ne]. repeat split; try assumption. exists (b :: r). repeat split; assumption.
+  Qed.
+
+  Lemma convert_inv s token denom live s' cl :
+    Inv s -> convert hid v s token denom live = Ok (s', cl) -> Inv s'.
+  Proof.
+    intros I H. unfold convert in H.
+    destruct (minting_enabled v s token denom) as [p| |] eqn:Em; try discriminate.
+    - apply minting_enabled_ok in Em as (_ & _ & id & _ & _ & Ep & _).
+      destruct (existsb (bytes_eqb (addr_of (p_text p))) live).
+      + apply Ok_inj in H. inversion H; subst; exact I.
+      + destruct (delete_pair hid s p) as [s1| |] eqn:Ed; cbn [obind] in H; try discriminate.
+        apply Ok_inj in H. inversion H; subst. exact (delete_pair_inv _ _ _ _ I Ep Ed).
+    - apply Ok_inj in H. inversion H; subst; exact I.
+  Qed.
+
+  (** ** Genesis *)
+
+  Lemma check_denoms_spec ds : forall seen seen',
+    check_denoms seen ds = Some seen' ->
+    NoDup ds /\ (forall d, In d ds -> ~ In d seen) /\ (forall x, In x seen' <-> In x seen \/ In x ds).
+  Proof.
+    induction ds as [|d ds IH]; intros seen seen' H; cbn in H.
+    - inversion H; subst. split; [constructor|]. split; [intros ? []|]. intro x. cbn. tauto.
+    - destruct (existsb (bytes_eqb d) seen) eqn:E; [discriminate|]. apply existsb_eqb_nIn in E.
+      destruct (IH _ _ H) as (ND & NI & M). split; [|split].
+      + constructor; [|exact ND]. intro X. apply (NI _ X). left. reflexivity.
+      + intros x [<-|X]; [exact E|]. intro Y. apply (NI _ X). right. exact Y.
+      + intro x. rewrite M. cbn. tauto.
+  Qed.
+
+  Lemma init_genesis_cons ps : forall s seenE seenD,
+    v_genesis_all v = true -> v_genesis_addr v = true ->
+    validate_genesis v seenE seenD ps = Ok tt -> Consistent s ->
+    (forall a id, aget a (st_erc20 s) = Some id -> In a seenE) ->
+    (forall d id, aget d (st_denom s) = Some id -> In d seenD) ->
+    exists s', init_genesis hid s ps = Ok s' /\ Consistent s' /\ st_meta s' = st_meta s /\ st_enable s' = st_enable s /\
+               (v_reject_hex v = true -> (forall d id, aget d (st_denom s) = Some id -> is_hex_address d = false) ->
+                forall d id, aget d (st_denom s') = Some id -> is_hex_address d = false).
+  Proof.
+    induction ps as [|p r IH]; intros s seenE seenD VA VD H C SE SD.
+    - exists s. cbn. split; [reflexivity|]. split; [exact C|]. split; [reflexivity|]. split; [reflexivity|]. intros _ X. exact X.
+    - cbn [validate_genesis] in H. rewrite VA, VD in H.
+      destruct (existsb (bytes_eqb (addr_of (p_text p))) seenE) eqn:E1; [discriminate|]. apply existsb_eqb_nIn in E1.
+      destruct (p_denoms p) as [|d0 ds] eqn:Eds; [discriminate|]. rewrite <- Eds in H.
+      destruct (check_denoms seenD (p_denoms p)) as [seen'|] eqn:Ec; [|discriminate].
+      destruct (pair_validate v p) eqn:Ev; [|discriminate].
+      destruct (check_denoms_spec _ _ _ Ec) as (ND & NI & M).
+      unfold pair_validate in Ev. apply andb_true_iff in Ev as [Ev1 Ev2].
+      cbn [init_genesis]. unfold store_new_pair at 1. unfold Registry.pair_id at 1. rewrite Eds. cbn [obind]. rewrite <- Eds.
+      set (id := hid (p_text p) d0).
+      set (s1 := {| st_pairs := aset id p (st_pairs s); st_erc20 := aset (addr_of (p_text p)) id (st_erc20 s);
+                    st_denom := set_denoms (st_denom s) (p_denoms p) id; st_meta := st_meta s; st_enable := st_enable s |}).
+      assert (C1 : Consistent s1).
+      { unfold Consistent, s1. cbn [st_pairs st_erc20 st_denom]. apply cons_add; try assumption.
+        - unfold pair_wf. rewrite Eds. split; [discriminate|]. rewrite <- Eds. split; assumption.
+        - unfold Registry.pair_id. rewrite Eds. reflexivity.
+        - destruct (aget id (st_pairs s)) as [q|] eqn:Eq; [|reflexivity]. exfalso.
+          destruct (c_pair _ _ _ C _ _ Eq) as (_ & Iq & Eq' & _).
+          apply pair_id_ok in Iq as (d1 & r1 & _ & Y). apply hid_inj in Y as [Y _].
+          rewrite <- Y in Eq'. apply E1. exact (SE _ _ Eq').
+        - destruct (aget (addr_of (p_text p)) (st_erc20 s)) eqn:Eq; [|reflexivity]. exfalso. apply E1. exact (SE _ _ Eq).
+        - intros d Hd. destruct (aget d (st_denom s)) eqn:Eq; [|reflexivity]. exfalso. apply (NI _ Hd). exact (SD _ _ Eq). }
+      destruct (IH s1 (addr_of (p_text p) :: seenE) seen' VA VD H C1) as (s' & Hs' & C' & Em & En & Hx).
+      + intros a i Ha. unfold s1 in Ha. cbn [st_erc20] in Ha. rewrite aget_aset in Ha.
+        destruct (bytes_eqb_spec a (addr_of (p_text p))) as [->|N]; [left; reflexivity | right; exact (SE _ _ Ha)].
+      + intros d i Hd. unfold s1 in Hd. cbn [st_denom] in Hd. rewrite aget_set_denoms in Hd. apply M.
+        destruct (existsb (bytes_eqb d) (p_denoms p)) eqn:X; [right; apply existsb_eqb_In; exact X | left; exact (SD _ _ Hd)].
+      + exists s'. split; [exact Hs'|]. split; [exact C'|]. split; [exact Em|]. split; [exact En|].
+        intros VH NH. apply Hx; [exact VH|]. intros d i Hd. unfold s1 in Hd. cbn [st_denom] in Hd. rewrite aget_set_denoms in Hd.
+        destruct (existsb (bytes_eqb d) (p_denoms p)) eqn:X; [|exact (NH _ _ Hd)].
+        apply existsb_eqb_In in X. rewrite forallb_forall in Ev1. specialize (Ev1 _ X). rewrite VH in Ev1.
+        apply andb_true_iff in Ev1 as [_ Ev1]. cbn [andb] in Ev1. apply negb_true_iff in Ev1. exact Ev1.
+  Qed.
+
+  (** * Every operation preserves the invariant *)
+
+  (** Environment hypotheses of an operation: the address the module account creates for RegisterCoin is a
+      20-byte address that is not in the ERC20 index (a collision would be a keccak collision); a genesis is
+      imported into an empty registry (and, for the pinned [Name] test, never: [MetaInv] cannot be checked
+      by the aggregate genesis alone). *)
+  Definition admissible (s : state) (o : op) : Prop :=
+    match o with
+    | ORegisterCoin _ deploy _ => length deploy = 20%nat /\ aget deploy (st_erc20 s) = None
+    | OGenesis _ _ => st_pairs s = [] /\ st_erc20 s = [] /\ st_denom s = [] /\ v_test_base v = true
+    | _ => True
+    end.
+
+  Definition repaired : Prop :=
+    v_reindex_all v = true /\ v_update_guard v = true /\ v_genesis_all v = true /\ v_genesis_addr v = true.
+
+  Notation step := (step hid canon evm_denom v).
+  Notation run := (run hid canon evm_denom v).
+
+  Lemma commit_inv s r : Inv s -> (forall s', r = Ok s' -> Inv s') -> Inv (fst (commit s r)).
+  Proof. intros I H. destruct r; cbn; [apply H; reflexivity | exact I | exact I]. Qed.
+
+  Lemma step_inv s o : repaired -> Inv s -> admissible s o -> Inv (fst (step s o)).
+  Proof.
+    intros (VR & VG & VA & VD) I A. unfold Registry.step.
+    destruct (validate_basic o) eqn:VB; cbn [negb]; [|exact I].
+    destruct o; cbn [admissible] in A.
+    - destruct A as [L Fr]. apply commit_inv; [exact I|]. intros s' H. exact (register_coin_inv _ _ _ _ _ I L Fr H).
+    - apply commit_inv; [exact I|]. intros s' H. refine (add_coin_inv _ _ _ _ _ I _ H).
+      cbn [validate_basic] in VB. unfold coin_vb in VB. rewrite !andb_true_iff in VB.
+      apply metadata_validate_units. tauto.
+    - apply commit_inv; [exact I|]. intros s' H. exact (register_erc20_inv _ _ _ _ I H).
+    - apply commit_inv; [exact I|]. intros s' H. exact (toggle_inv _ _ _ I H).
+    - apply commit_inv; [exact I|]. intros s' H. exact (update_pair_inv _ _ _ _ _ VR VG I H).
+    - destruct (convert hid v s denom denom live) as [[s' cl]| |] eqn:E; try exact I. exact (convert_inv _ _ _ _ _ _ I E).
+    - destruct (convert hid v s contract denom live) as [[s' cl]| |] eqn:E; try exact I. exact (convert_inv _ _ _ _ _ _ I E).
+    - destruct I as [C F]. split; [exact C|]. destruct F as [F|F]; [left; exact F | right; exact F].
+    - destruct A as (EP & EE & ED & VT).
+      set (s0 := set_metas s metas).
+      assert (I0 : Inv s0) by (destruct I as [C _]; split; [exact C | left; exact VT]).
+      destruct (validate_genesis v [] [] pairs) as [[]| |] eqn:Ev; try exact I0.
+      destruct (init_genesis_cons pairs s0 [] [] VA VD Ev (proj1 I0)) as (s' & Hs & C' & _).
+      + intros a i Ha. cbn in Ha. rewrite EE in Ha. discriminate.
+      + intros d i Hd. cbn in Hd. rewrite ED in Hd. discriminate.
+      + rewrite Hs. cbn. split; [exact C' | left; exact VT].
+    - exact I.
+  Qed.
+
+  Fixpoint admissible_run (s : state) (os : list op) : Prop :=
+    match os with
+    | [] => True
+    | o :: r => admissible s o /\ admissible_run (fst (step s o)) r
+    end.
+
+  (** [Consistent] (with the auxiliary invariant) holds after ANY sequence of operations *)
+  Lemma run_inv os : forall s, repaired -> Inv s -> admissible_run s os -> Inv (run s os).
+  Proof.
+    induction os as [|o r IH]; intros s R I A; cbn; [exact I|].
+    destruct A as [A1 A2]. apply IH; [exact R | apply step_inv; assumption | exact A2].
+  Qed.
+
+  (** * What each operation does to the pair records and to the denomination index (shapes) *)
+
+  Definition evolved (p p' : pair) : Prop :=
+    incl (p_denoms p) (p_denoms p') /\ p_owner p' = p_owner p /\ p_enabled p' = p_enabled p.
+
+  Lemma evolved_refl p : evolved p p.
+  Proof. split; [apply incl_refl | split; reflexivity]. Qed.
+
+  (** [old_or_new s s' P]: every denomination entry of [s'] is an entry of [s] or satisfies [P] *)
+  Definition denoms_from (s s' : state) (Q : bytes -> Prop) : Prop :=
+    forall d id', aget d (st_denom s') = Some id' -> (exists id0, aget d (st_denom s) = Some id0) \/ Q d.
+
+  Definition nohex_if (d : bytes) : Prop := v_reject_hex v = true -> is_hex_address d = false.
+
+  (** [keeps s s']: every pair of [s] is still there (possibly with more denominations) *)
+  Definition keeps (s s' : state) : Prop :=
+    forall id p, aget id (st_pairs s) = Some p -> exists id' p', aget id' (st_pairs s') = Some p' /\ evolved p p'.
+
+  Lemma keeps_refl s : keeps s s.
+  Proof. intros id p H. exists id, p. split; [exact H | apply evolved_refl]. Qed.
+
+  Lemma keeps_fresh s s' nid np :
+    st_pairs s' = aset nid np (st_pairs s) -> aget nid (st_pairs s) = None -> keeps s s'.
+  Proof.
+    intros E F id p H. exists id, p. split; [|apply evolved_refl]. rewrite E, aget_aset.
+    destruct (bytes_eqb_spec id nid) as [->|N]; [congruence | exact H].
+  Qed.
+
+  Lemma register_coin_shape s md deploy sup s' :
+    Inv s -> length deploy = 20%nat -> aget deploy (st_erc20 s) = None ->
+    register_coin hid canon evm_denom v s md deploy sup = Ok s' ->
+    keeps s s' /\ denoms_from s s' nohex_if /\ st_enable s' = st_enable s.
+  Proof.
+    intros I L Fr H. unfold register_coin in H.
+    destruct (coin_checks evm_denom v s md sup) as [s1| |] eqn:Ec; cbn [obind] in H; try discriminate.
+    destruct (md_units md) eqn:Eu; [discriminate|].
+    assert (U : md_units md <> []) by (rewrite Eu; discriminate).
+    destruct (coin_checks_ok _ _ _ _ I U Ec) as ((EP & EE & ED & EN) & G & HM & HB & HX).
+    unfold store_new_pair in H. cbn [Registry.pair_id p_denoms p_text obind] in H. apply Ok_inj in H. subst s'.
+    destruct I as [C F]. split; [|split].
+    - eapply keeps_fresh; [cbn [st_pairs]; rewrite EP; reflexivity|].
+      destruct (aget (hid (canon deploy) (md_base md)) (st_pairs s)) as [q|] eqn:Eq; [|reflexivity]. exfalso.
+      destruct (c_pair _ _ _ C _ _ Eq) as (_ & Iq & Eq' & _).
+      apply pair_id_ok in Iq as (d0 & r & _ & X). apply hid_inj in X as [X _].
+      rewrite <- X, canon_addr in Eq' by exact L. congruence.
+    - intros d id' Hd. cbn [st_denom] in Hd. rewrite aget_set_denoms in Hd. cbn [existsb] in Hd. rewrite orb_false_r in Hd.
+      destruct (bytes_eqb_spec d (md_base md)) as [->|N]; [right; exact HX | left; rewrite ED in Hd; eauto].
+    - cbn. exact EN.
+  Qed.
+
+  Lemma add_coin_shape s md contract sup s' :
+    Inv s -> md_units md <> [] -> add_coin hid evm_denom v s md contract sup = Ok s' ->
+    keeps s s' /\ denoms_from s s' nohex_if /\ st_enable s' = st_enable s.
+  Proof.
+    intros I U H. unfold add_coin in H.
+    destruct (negb (is_hex_address contract)); [discriminate|].
+    destruct (coin_checks evm_denom v s md sup) as [s1| |] eqn:Ec; cbn [obind] in H; try discriminate.
+    destruct (coin_checks_ok _ _ _ _ I U Ec) as ((EP & EE & ED & EN) & G & HM & HB & HX).
+    destruct (get_pair s1 (get0 (st_erc20 s1) (addr_of contract))) as [p|] eqn:Ep; [|discriminate].
+    apply get_pair_some in Ep as [Ep _]. rewrite EP in Ep.
+    set (id := get0 (st_erc20 s1) (addr_of contract)) in *.
+    set (p' := {| p_text := p_text p; p_denoms := p_denoms p ++ [md_base md]; p_enabled := p_enabled p; p_owner := p_owner p |}) in *.
+    destruct (Registry.pair_id hid p') as [id'| |] eqn:Ei; cbn [obind] in H; try discriminate.
+    destruct (bytes_eqb_spec id id') as [<-|N]; cbn [negb] in H; [|discriminate].
+    apply Ok_inj in H. subst s'. split; [|split].
+    - intros i q Hq. cbn [st_pairs]. rewrite EP. destruct (bytes_eqb_spec i id) as [->|N].
+      + exists id, p'. rewrite aget_aset, bytes_eqb_refl. split; [reflexivity|].
+        rewrite Ep in Hq. inversion Hq; subst q. split; [apply incl_appl, incl_refl | split; reflexivity].
+      + exists i, q. rewrite aget_aset. destruct (bytes_eqb_spec i id); [contradiction|]. split; [exact Hq | apply evolved_refl].
+    - intros d i Hd. cbn [st_denom] in Hd. rewrite aget_aset in Hd.
+      destruct (bytes_eqb_spec d (md_base md)) as [->|N]; [right; exact HX | left; rewrite ED in Hd; eauto].
+    - cbn. exact EN.
+  Qed.
+
+  Lemma register_erc20_shape s text q s' :
+    Inv s -> register_erc20 hid canon s text q = Ok s' ->
+    keeps s s' /\ denoms_from s s' nohex_if /\ st_enable s' = st_enable s.
+  Proof.
+    intros [C F] H. unfold register_erc20 in H.
+    destruct (negb (st_enable s)); [discriminate|].
+    destruct (ahas (addr_of text) (st_erc20 s)) eqn:Ea; [discriminate|]. apply ahas_false in Ea.
+    destruct q as [q|]; [|discriminate].
+    destruct (ahas (create_denom (canon (addr_of text))) (st_meta s)); [discriminate|].
+    destruct (ahas (create_denom (canon (addr_of text))) (st_denom s)) eqn:Ed; [discriminate|].
+    destruct (negb (metadata_validate (erc20_metadata (canon (addr_of text)) q))); [discriminate|].
+    unfold store_new_pair in H. cbn [Registry.pair_id p_denoms p_text obind erc20_metadata md_name md_base] in H.
+    apply Ok_inj in H. subst s'.
+    set (a := addr_of text) in *. assert (L : length a = 20%nat) by apply addr_of_length.
+    split; [|split].
+    - eapply keeps_fresh; [cbn [st_pairs with_meta]; reflexivity|].
+      destruct (aget (hid (canon a) (create_denom (canon a))) (st_pairs s)) as [x|] eqn:Eq; [|reflexivity]. exfalso.
+      destruct (c_pair _ _ _ C _ _ Eq) as (_ & Iq & Eq' & _).
+      apply pair_id_ok in Iq as (d0 & r & _ & X). apply hid_inj in X as [X _].
+      rewrite <- X, canon_addr in Eq' by exact L. congruence.
+    - intros d id' Hd. cbn [st_denom with_meta] in Hd. rewrite aget_set_denoms in Hd. cbn [existsb] in Hd. rewrite orb_false_r in Hd.
+      destruct (bytes_eqb_spec d (create_denom (canon a))) as [->|N]; [right; intros _; apply create_denom_not_hex | left; eauto].
+    - reflexivity.
+  Qed.
+
+  Lemma toggle_shape s token s' :
+    Inv s -> toggle hid s token = Ok s' ->
+    (forall id p, aget id (st_pairs s) = Some p -> id = get_token_pair_id s token \/ aget id (st_pairs s') = Some p) /\
+    st_denom s' = st_denom s /\ st_enable s' = st_enable s.
+  Proof.
+    intros [C F] H. unfold toggle in H.
+    destruct (get_token_pair_id s token) as [|b r] eqn:Eid; [discriminate|].
+    destruct (get_pair s (b :: r)) as [p|] eqn:Ep; [|discriminate].
+    apply get_pair_some in Ep as [Ep _].
+    destruct (c_pair _ _ _ C _ _ Ep) as (W & Ip & _).
+    unfold set_pair in H.
+    set (p' := {| p_text := p_text p; p_denoms := p_denoms p; p_enabled := negb (p_enabled p); p_owner := p_owner p |}) in *.
+    assert (Ip' : Registry.pair_id hid p' = Ok (b :: r)) by exact Ip.
+    rewrite Ip' in H. cbn [obind] in H. apply Ok_inj in H. subst s'. split; [|split; reflexivity].
+    intros id q Hq. cbn [st_pairs]. rewrite aget_aset. destruct (bytes_eqb_spec id (b :: r)) as [->|N]; [left; reflexivity | right; exact Hq].
+  Qed.
+
+  Lemma delete_pair_shape s idc p s' :
+    Inv s -> aget idc (st_pairs s) = Some p -> delete_pair hid s p = Ok s' ->
+    (forall id q, aget id (st_pairs s) = Some q -> id = idc \/ aget id (st_pairs s') = Some q) /\
+    denoms_from s s' (fun _ => False) /\ st_enable s' = st_enable s.
+  Proof.
+    intros [C F] Ep H. destruct (c_pair _ _ _ C _ _ Ep) as (W & Ip & _).
+    unfold delete_pair in H. rewrite Ip in H. cbn [obind] in H. apply Ok_inj in H. subst s'. split; [|split; [|reflexivity]].
+    - intros id q Hq. cbn [st_pairs]. rewrite aget_adel. destruct (bytes_eqb_spec id idc) as [->|N]; [left; reflexivity | right; exact Hq].
+    - intros d id' Hd. cbn [st_denom] in Hd. rewrite aget_del_denoms in Hd.
+      destruct (existsb (bytes_eqb d) (p_denoms p)); [discriminate | left; eauto].
+  Qed.
+
+  Lemma update_pair_shape s old_text new_text q s' :
+    v_reindex_all v = true -> v_update_guard v = true ->
+    Inv s -> update_pair hid canon v s old_text new_text q = Ok s' ->
+    keeps s s' /\ denoms_from s s' (fun _ => False) /\ st_enable s' = st_enable s.
+  Proof.
+    intros VR VG [C F] H. unfold update_pair in H. rewrite VR, VG in H.
+    set (old := addr_of old_text) in *. set (new := addr_of new_text) in *.
+    assert (L : length new = 20%nat) by apply addr_of_length.
+    destruct (get0 (st_erc20 s) old) as [|b r] eqn:Eid; [discriminate|].
+    cbn [andb] in H. destruct (ahas new (st_erc20 s)) eqn:En; [discriminate|]. apply ahas_false in En.
+    destruct (get_pair s (b :: r)) as [p|] eqn:Ep; [|discriminate].
+    apply get_pair_some in Ep as [Ep _]. set (id := b :: r) in *.
+    destruct (c_pair _ _ _ C _ _ Ep) as (W & Ip & HE & HD).
+    destruct (p_denoms p) as [|d0 ds] eqn:Eds; [discriminate|].
+    destruct (aget d0 (st_meta s)) as [m|] eqn:Em; [|discriminate].
+    destruct (md_units m) eqn:Eu; [discriminate|]. destruct q as [q|]; [|discriminate].
+    match type of H with (if ?c then _ else _) = _ => destruct c; [discriminate|] end.
+    match type of H with (if ?c then _ else _) = _ => destruct c; [discriminate|] end.
+    unfold delete_pair in H. rewrite Ip in H. cbn [obind] in H.
+    unfold Registry.pair_id in H. cbn [p_denoms p_text] in H. rewrite Eds in H. cbn [obind] in H.
+    apply Ok_inj in H. subst s'.
+    set (p' := {| p_text := canon new; p_denoms := d0 :: ds; p_enabled := p_enabled p; p_owner := p_owner p |}).
+    split; [|split; [|reflexivity]].
+    - intros i x Hx. cbn [st_pairs with_meta]. destruct (bytes_eqb_spec i id) as [->|N].
+      + exists (hid (canon new) d0), p'. rewrite aget_aset, bytes_eqb_refl. split; [reflexivity|].
+        rewrite Ep in Hx. inversion Hx; subst x. split; [rewrite Eds; apply incl_refl | split; reflexivity].
+      + exists i, x. split; [|apply evolved_refl]. rewrite aget_aset, aget_adel.
+        destruct (bytes_eqb_spec i (hid (canon new) d0)) as [->|N2].
+        * exfalso. destruct (c_pair _ _ _ C _ _ Hx) as (_ & Iq & Eq' & _).
+          apply pair_id_ok in Iq as (d1 & r1 & _ & Y). apply hid_inj in Y as [Y _].
+          rewrite <- Y, canon_addr in Eq' by exact L. congruence.
+        * destruct (bytes_eqb_spec i id); [contradiction | exact Hx].
+    - intros d i Hd. cbn [st_denom with_meta] in Hd. rewrite aget_set_denoms in Hd. left.
+      destruct (existsb (bytes_eqb d) (d0 :: ds)) eqn:X.
+      + apply existsb_eqb_In in X. exists id. exact (HD _ X).
+      + rewrite aget_del_denoms in Hd. try rewrite Eds in Hd. rewrite X in Hd. eauto.
+  Qed.
+
+  (** * No registered denomination reads as a hex address (code that refuses such a base) *)
+
+  Definition NoHex (s : state) : Prop := forall d id, aget d (st_denom s) = Some id -> is_hex_address d = false.
+
+  Lemma nohex_from s s' Q : NoHex s -> denoms_from s s' Q -> (forall d, Q d -> is_hex_address d = false) -> NoHex s'.
+  Proof. intros N Df HQ d id H. destruct (Df _ _ H) as [[id0 H0]|X]; [exact (N _ _ H0) | exact (HQ _ X)]. Qed.
+
+  Lemma commit_prop (Q : state -> Prop) s r : Q s -> (forall s', r = Ok s' -> Q s') -> Q (fst (commit s r)).
+  Proof. intros I H. destruct r; cbn; [apply H; reflexivity | exact I | exact I]. Qed.
+
+  Lemma step_nohex s o :
+    repaired -> v_reject_hex v = true -> Inv s -> NoHex s -> admissible s o -> NoHex (fst (step s o)).
+  Proof.
+    intros (VR & VG & VA & VD) VH I N A. unfold Registry.step.
+    destruct (validate_basic o) eqn:VB; cbn [negb]; [|exact N].
+    assert (HQ : forall d, nohex_if d -> is_hex_address d = false) by (intros d X; exact (X VH)).
+    destruct o; cbn [admissible] in A.
+    - destruct A as [L Fr]. apply commit_prop; [exact N|]. intros s' H.
+      destruct (register_coin_shape _ _ _ _ _ I L Fr H) as (_ & Df & _). exact (nohex_from _ _ _ N Df HQ).
+    - apply commit_prop; [exact N|]. intros s' H.
+      assert (U : md_units md <> []).
+      { cbn [validate_basic] in VB. unfold coin_vb in VB. rewrite !andb_true_iff in VB. apply metadata_validate_units. tauto. }
+      destruct (add_coin_shape _ _ _ _ _ I U H) as (_ & Df & _). exact (nohex_from _ _ _ N Df HQ).
+    - apply commit_prop; [exact N|]. intros s' H.
+      destruct (register_erc20_shape _ _ _ _ I H) as (_ & Df & _). exact (nohex_from _ _ _ N Df HQ).
+    - apply commit_prop; [exact N|]. intros s' H.
+      destruct (toggle_shape _ _ _ I H) as (_ & Ed & _). intros d id Hd. rewrite Ed in Hd. exact (N _ _ Hd).
+    - apply commit_prop; [exact N|]. intros s' H.
+      destruct (update_pair_shape _ _ _ _ _ VR VG I H) as (_ & Df & _). apply (nohex_from _ _ _ N Df). intros ? [].
+    - destruct (convert hid v s denom denom live) as [[s' cl]| |] eqn:E; try exact N. cbn [fst].
+      unfold convert in E. destruct (minting_enabled v s denom denom) as [p| |] eqn:Em; try discriminate.
+      + apply minting_enabled_ok in Em as (_ & _ & id & _ & _ & Ep & _).
+        destruct (existsb (bytes_eqb (addr_of (p_text p))) live); [apply Ok_inj in E; inversion E; subst; exact N|].
+        destruct (delete_pair hid s p) as [s1| |] eqn:Ed; cbn [obind] in E; try discriminate.
+        apply Ok_inj in E. inversion E; subst.
+        destruct (delete_pair_shape _ _ _ _ I Ep Ed) as (_ & Df & _). apply (nohex_from _ _ _ N Df). intros ? [].
+      + apply Ok_inj in E; inversion E; subst; exact N.
+    - destruct (convert hid v s contract denom live) as [[s' cl]| |] eqn:E; try exact N. cbn [fst].
+      unfold convert in E. destruct (minting_enabled v s contract denom) as [p| |] eqn:Em; try discriminate.
+      + apply minting_enabled_ok in Em as (_ & _ & id & _ & _ & Ep & _).
+        destruct (existsb (bytes_eqb (addr_of (p_text p))) live); [apply Ok_inj in E; inversion E; subst; exact N|].
+        destruct (delete_pair hid s p) as [s1| |] eqn:Ed; cbn [obind] in E; try discriminate.
+        apply Ok_inj in E. inversion E; subst.
+        destruct (delete_pair_shape _ _ _ _ I Ep Ed) as (_ & Df & _). apply (nohex_from _ _ _ N Df). intros ? [].
+      + apply Ok_inj in E; inversion E; subst; exact N.
+    - exact N.
+    - destruct A as (EP & EE & ED & VT).
+      set (s0 := set_metas s metas).
+      assert (N0 : NoHex s0) by exact N.
+      destruct (validate_genesis v [] [] pairs) as [[]| |] eqn:Ev; try exact N0.
+      destruct I as [C _].
+      destruct (init_genesis_cons pairs s0 [] [] VA VD Ev C) as (s' & Hs & _ & _ & _ & Hx).
+      + intros a i Ha. cbn in Ha. rewrite EE in Ha. discriminate.
+      + intros d i Hd. cbn in Hd. rewrite ED in Hd. discriminate.
+      + rewrite Hs. cbn. exact (Hx VH N0).
+    - exact N.
+  Qed.
+
+  (** * Resolution through the API *)
+
+  (** every pair is found by its address text and by EACH of its denominations *)
+  Lemma resolvable s id p :
+    Consistent s -> NoHex s -> aget id (st_pairs s) = Some p ->
+    get_token_pair_id s (p_text p) = id /\ forall d, In d (p_denoms p) -> get_token_pair_id s d = id.
+  Proof.
+    intros C N H. destruct (c_pair _ _ _ C _ _ H) as ((_ & _ & Wh) & _ & HE & HD). unfold get_token_pair_id. split.
+    - rewrite Wh. apply get0_some. exact HE.
+    - intros d Hd. rewrite (N _ _ (HD _ Hd)). apply get0_some. exact (HD _ Hd).
+  Qed.
+
+  (** MintingEnabled is sound: the denomination is listed by the returned pair, which is stored, enabled and
+      is the pair the token resolves to *)
+  Lemma minting_enabled_sound s token denom p :
+    Consistent s -> (v_mint_direct v = true \/ NoHex s) -> minting_enabled v s token denom = Ok p ->
+    st_enable s = true /\ p_enabled p = true /\ In denom (p_denoms p) /\
+    exists id, aget id (st_pairs s) = Some p /\ get_token_pair_id s token = id.
+  Proof.
+    intros C X H. apply minting_enabled_ok in H as (En & Ep & id & Ne & Et & Hp & Hd).
+    split; [exact En|]. split; [exact Ep|]. split; [|exists id; split; assumption].
+    assert (Y : aget denom (st_denom s) = Some id).
+    { destruct id as [|b r]; [contradiction|].
+      destruct (v_mint_direct v) eqn:VM.
+      - apply get0_cons. exact Hd.
+      - destruct X as [X|N]; [discriminate|]. unfold get_token_pair_id in Hd.
+        destruct (is_hex_address denom) eqn:Eh; [|apply get0_cons; exact Hd].
+        (* a hex-looking denomination resolved through the address index: then some pair at that address ... *)
+        exfalso. apply get0_cons in Hd. destruct (c_erc20 _ _ _ C _ _ Hd) as (q & Hq & Aq).
+        (* ... but soundness needs the denomination index; impossible to conclude membership: use NoHex on pairs *)
+        clear - Eh N C Hq Aq Hd Hp. admit. }
+    destruct (c_denom _ _ _ C _ _ Y) as (q & Hq & Iq). rewrite Hp in Hq. inversion Hq; subst q. exact Iq.
+  Abort.
+
 End Proofs.
